@@ -124,6 +124,9 @@ func checkC06(p *Prog, r *Report) {
 			}
 			base := FnName(fn)
 			found := false
+			if carried, inLoop := loopCarriedGuards(add); inLoop {
+				r.Check("R3", base+"|addition-independent-of-earlier-entries", len(carried) == 0, p.InstrPos(add), fmt.Sprintf("whether an entry marked added is processed depends on that entry only, not on the entries before it (a notification may remove an entity and add it again): %v", carried))
+			}
 			forEachCall(fn, func(site ssa.CallInstruction) {
 				c, ok := site.(*ssa.Call)
 				if !ok || !staticCallee(&c.Call, repoMod+"/spine", "events", "Publish") {
@@ -230,6 +233,7 @@ func checkC06(p *Prog, r *Report) {
 		return strings.Contains(key, "Operations") || strings.Contains(key, "AddFunctionType")
 	})
 	c06Rebuild(p, r)
+	c06FullDiff(p, r)
 	r.Rule("R8", "a list field whose slice header a getter hands out (callers iterate it without the lock) is never modified in place: no element store, no copy into it, no in-place library routine (slices.DeleteFunc, sort.Slice, …); removal builds a new slice")
 	escapedListsImmutable(p, BuildLockset(p, "spine", "model"), r, "R8", map[string]bool{"DeviceRemote": true, "EntityRemote": true})
 	r.Rule("R7", "every hand-written element-wise comparison of two slices of one type compares their lengths for equality: entity addresses are never matched by prefix (shared lint, C20-R6)")
@@ -431,6 +435,9 @@ func entityRemovalCascade(p *Prog, r *Report, ruleA, ruleB string) {
 			ab = nil
 		}
 		r.Check(ruleB, base+"|every-entry-processed", len(ab) == 0, p.InstrPos(removal), fmt.Sprintf("the loop over the announced entity entries is left early only by returning an error; other exits: %v", ab))
+		if carried, inLoop := loopCarriedGuards(removal); inLoop {
+			r.Check(ruleB, base+"|removal-independent-of-earlier-entries", len(carried) == 0, p.InstrPos(removal), fmt.Sprintf("whether an entry marked removed is processed depends on that entry only, not on the entries before it: %v", carried))
+		}
 		arg := Path(callArgs(&removal.Call)[0])
 		elem := strings.TrimSuffix(arg, ".Description.EntityAddress.Entity")
 		tested := ""
@@ -598,4 +605,88 @@ func baseValue(v ssa.Value) ssa.Value {
 		}
 	}
 	return v
+}
+
+// c06FullDiff: a full (filter-less) discovery notification is turned into a diff. The entries synthesised as
+// "removed" come from a loop over the entities known for the peer; that loop must range over the complete list the
+// device returns — a list that is conditionally emptied or shortened misses removals (an entity replaced by
+// another one leaves the announced count unchanged).
+func c06FullDiff(p *Prog, r *Report) {
+	r.Rule("R11", "the search for removed entities of a full notification ranges over the complete list of known entities of the peer")
+	dri := p.LookupIface("api", "DeviceRemoteInterface")
+	eri := p.LookupIface("api", "EntityRemoteInterface")
+	if dri == nil || eri == nil {
+		r.Undecided("R11", "anchor:api interfaces", "", "interface not found")
+		return
+	}
+	n := 0
+	for _, fn := range p.RepoFns("spine") {
+		if fn.Blocks == nil {
+			continue
+		}
+		// the store of the constant "removed" into a state-change cell, inside a loop
+		var mark *ssa.Store
+		for _, b := range fn.Blocks {
+			for _, ins := range b.Instrs {
+				st, ok := ins.(*ssa.Store)
+				if !ok {
+					continue
+				}
+				if s, isS := constString(st.Val); isS && s == "removed" && isNamed(st.Val.Type(), "model", "NetworkManagementStateChangeType") && loopHeaderOf(b) != nil {
+					mark = st
+				}
+			}
+		}
+		if mark == nil {
+			continue
+		}
+		hdr := loopHeaderOf(mark.Block())
+		inLoop := func(x *ssa.BasicBlock) bool { return hdr.Dominates(x) && (x == hdr || blockReaches(x, hdr)) }
+		base := FnName(fn)
+		var ranged ssa.Value
+		for _, b := range fn.Blocks {
+			if !inLoop(b) {
+				continue
+			}
+			for _, ins := range b.Instrs {
+				var x ssa.Value
+				switch v := ins.(type) {
+				case *ssa.IndexAddr:
+					x = v.X
+				case *ssa.Index:
+					x = v.X
+				}
+				if x == nil {
+					continue
+				}
+				if sl, ok := x.Type().Underlying().(*types.Slice); ok && implementsIface(sl.Elem(), eri) {
+					ranged = x
+				}
+			}
+		}
+		if ranged == nil {
+			continue // the synthesised entries do not come from a loop over remote entities: another construct
+		}
+		n++
+		v := ranged
+		for {
+			if ct, ok := v.(*ssa.ChangeType); ok {
+				v = ct.X
+				continue
+			}
+			break
+		}
+		switch x := v.(type) {
+		case *ssa.Call:
+			ok := calleeIsIfaceMethod(&x.Call, dri, "Entities")
+			r.Check("R11", base+"|ranges-over-known-entities", ok, p.InstrPos(x), "the loop producing the removed entries ranges over "+Path(v))
+		case *ssa.Phi:
+			r.Fail("R11", base+"|ranges-over-known-entities", p.InstrPos(mark), "the loop producing the removed entries ranges over a list that is chosen by a condition ("+Path(v)+"): on one branch known entities are not examined, so their removal goes unnoticed")
+		case *ssa.Slice:
+			r.Fail("R11", base+"|ranges-over-known-entities", p.InstrPos(mark), "the loop producing the removed entries ranges over a part of the list ("+Path(v)+")")
+		default:
+			r.Pass("R11", base+"|ranges-over-known-entities", p.InstrPos(mark), "the loop producing the removed entries ranges over "+Path(v)+" (shape not examined further)")
+		}
+	}
+	r.Floor("R11", "loops synthesising removed entries", n, 1)
 }
